@@ -62,6 +62,14 @@ def T(rng, t):
         "{{\n  var a = Tracked({t})\n  var r = (a.touch() > 0) ? by_value(a) : by_ref(a)\n  (a.touch() > 0) && (by_cref(Tracked({t1})) > 0)\n}}\nsettle()\nexpect_dead({t})\nexpect_dead({t1})",
         # switch / interpolation temporaries
         "{{\n  var a = Tracked({t})\n  var s = \"${{a.touch()}} and ${{make_value({t1}).touch()}}\"\n  switch (a.touch()) {{ case ({t}) {{ by_ref(a) }} default {{ }} }}\n}}\nsettle()\nexpect_dead({t})\nexpect_dead({t1})",
+        # the value of a function / lambda / method / if-block is its last statement: a reference into an argument temporary must stay valid
+        # until the caller's statement has finished
+        "def last{t}() {{ pick_cref(make_value({t})) }}\nvar lf{t} = fun() {{ pick_ref(Tracked({t})) }}\nlast{t}().touch()\nlf{t}().touch()\nby_cref(last{t}())\nlf{t} = fun() {{ 0 }}\nsettle()\nexpect_dead({t})",
+        "def ifv{t}(c) {{ if (c) {{ pick_cref(make_value({t})) }} else {{ pick_ptr(make_value({t1})) }} }}\nifv{t}(true).touch()\nby_cptr(ifv{t}(false))\nby_value(ifv{t}(true)) + by_ref(ifv{t}(false))\nsettle()\nexpect_dead({t})\nexpect_dead({t1})",
+        "class L{t} {{ def L{t}() {{ }}; def get() {{ pick_ref(make_value({t})) }} }}\nL{t}().get().touch()\nby_cref(L{t}().get())\npick_cref(L{t}().get()).touch()\nsettle()\nexpect_dead({t})",
+        # members of temporaries used within the same statement
+        "Holder({t}).inner.touch()\nby_ref(make_holder({t}).inner)\nby_cref(Holder({t}).get_inner)\nmake_holder({t}).get_inner.touch()\nHolder({t}).get_inner().touch()\npick_cref(make_holder({t}).inner).touch()\nsettle()\nexpect_dead({t})",
+        "{{\n  var h = Holder({t})\n  h.inner.touch()\n  var &r = h.inner\n  r.touch()\n  by_ptr(h.get_inner)\n  var h2 = h\n  h2.inner.set_tag({t1})\n  h.inner.touch()\n}}\nsettle()\nexpect_dead({t})\nexpect_dead({t1})",
     ]
     tpl = rng.choice(pool)
     return tpl.format(t=t, t1=t + 1, k=k, kc=1000 + k, touch=touch)
@@ -73,6 +81,7 @@ KNOWN_PROBES = [
     ("reference-into-temporary:member-of-returned-object", "var q = make_value(4).tag\nsettle()\nq + 0"),
     ("reference-into-temporary:member-of-constructed-object", "var q = Tracked(5).tag\nsettle()\nq + 0"),
     ("reference-into-destroyed-syntax-tree:element-of-string-literal", "\"abc\"[1]"),
+    ("reference-into-temporary:argument-returned-by-reference", "def last() { pick_cref(make_value(6)) }\nvar c = last()\nsettle()\nc.touch()"),
 ]
 
 
@@ -130,7 +139,7 @@ def run(ctx, tier, seed, scale=1.0):
     ctx.min_events["instances-destroyed"] = 5000
     if not ctx.samples:
         ctx.sample({"program": progs[0][:1500]})
-    ctx.rule = ("one case = 2-5 route templates (28 shapes, seeded parameters) over the instrumented class; every template ends with all referrers to its tags "
+    ctx.rule = ("one case = 2-5 route templates (33 shapes, seeded parameters) over the instrumented class; every template ends with all referrers to its tags "
                 "gone by construction and probes expect_dead / expect_alive; evaluated on the thread that owns the engine; the engine is destroyed inside "
                 "the case and the registry audited afterwards; all cases non-trivial; distinct by source")
     ctx.assumptions += ["reference cycles are not generated (the property excepts them)",
